@@ -11,6 +11,7 @@ type GenOptions struct {
 	Wait       bool // allow waiting out the real gap timer
 	MaxEntries int
 	Affected   bool // allow messages.affected* results (marker entries, HandleAffected actions)
+	Foreign    bool // allow differences that forward updates of other sequences, and unknown channels
 }
 
 // Gen builds a random scenario: a server log mixing new messages, pts-bearing non-message
@@ -41,6 +42,9 @@ func Gen(r *hc.RNG, o GenOptions) (Scenario, map[int]bool) {
 				k = KChAff
 			}
 		}
+		if o.Foreign && r.Chance(4) {
+			k = KChOther // an update of a channel nobody knows the access hash of
+		}
 		e := Entry{ID: id, Kind: k, Count: 1}
 		if k == KOther || k == KChOther || k == KAff || k == KChAff {
 			e.Count = hc.Pick(r, 1, 1, 1, 2, 3)
@@ -58,9 +62,13 @@ func Gen(r *hc.RNG, o GenOptions) (Scenario, map[int]bool) {
 		case "":
 			e.Count = 0
 		default:
-			e.Chan = hc.Pick(r, chans...)
-			cp[e.Chan] += e.Count
-			e.Pos = cp[e.Chan]
+			if len(chans) == 0 || (o.Foreign && k == KChOther && r.Chance(12)) || (len(chans) == 0) {
+				e.Chan, e.Kind, e.Count, e.Pos = 9001, KChOther, 1, 3+id // unknown channel: no sequence of ours
+			} else {
+				e.Chan = hc.Pick(r, chans...)
+				cp[e.Chan] += e.Count
+				e.Pos = cp[e.Chan]
+			}
 		}
 		s.Log = append(s.Log, e)
 	}
@@ -112,10 +120,21 @@ func Gen(r *hc.RNG, o GenOptions) (Scenario, map[int]bool) {
 			s.Actions = append(s.Actions, Action{Op: "p", IDs: []int{s.Log[r.Intn(i)].ID}})
 		}
 		if r.Chance(8) {
+			if o.Foreign && r.Chance(50) { // the difference forwards channel / position-less / unknown-channel updates
+				if x := pickExtras(r, s.Log[:i], func(e Entry) bool { return e.Seq() != "pts" && e.Seq() != "qts" && !e.IsMarker() }); len(x) > 0 {
+					s.Actions = append(s.Actions, Action{Op: "X", C: 0, IDs: x})
+				}
+			}
 			s.Actions = append(s.Actions, Action{Op: "T"})
 		}
 		if len(chans) > 0 && r.Chance(8) {
-			s.Actions = append(s.Actions, Action{Op: "CT", C: hc.Pick(r, chans...)})
+			c := hc.Pick(r, chans...)
+			if o.Foreign && r.Chance(50) { // … updates of other channels, common updates, position-less ones
+				if x := pickExtras(r, s.Log[:i], func(e Entry) bool { return !(e.Chan == c && e.Seq() != "") && !e.IsMarker() }); len(x) > 0 {
+					s.Actions = append(s.Actions, Action{Op: "X", C: c, IDs: x})
+				}
+			}
+			s.Actions = append(s.Actions, Action{Op: "CT", C: c})
 		}
 		if o.TooLong && r.Chance(4) {
 			s.Actions = append(s.Actions, Action{Op: "TL"}, Action{Op: "T"})
@@ -170,7 +189,7 @@ func Gen(r *hc.RNG, o GenOptions) (Scenario, map[int]bool) {
 		s.Actions = as
 	}
 	for _, a := range s.Actions {
-		if a.Op == "p" {
+		if a.Op == "p" || a.Op == "X" {
 			for _, id := range a.IDs {
 				if s.Log[id-1].Kind == KPlain {
 					pushedPlain[id] = true
@@ -179,4 +198,21 @@ func Gen(r *hc.RNG, o GenOptions) (Scenario, map[int]bool) {
 		}
 	}
 	return s, pushedPlain
+}
+
+// pickExtras chooses up to three entries that have already happened and satisfy ok.
+func pickExtras(r *hc.RNG, happened []Entry, ok func(Entry) bool) []int {
+	var cand []int
+	for _, e := range happened {
+		if ok(e) {
+			cand = append(cand, e.ID)
+		}
+	}
+	var out []int
+	for n := r.Range(1, 3); n > 0 && len(cand) > 0; n-- {
+		j := r.Intn(len(cand))
+		out = append(out, cand[j])
+		cand = append(cand[:j], cand[j+1:]...)
+	}
+	return out
 }
